@@ -3,6 +3,7 @@ package checks
 import (
 	"context"
 	"fmt"
+	"runtime"
 	"sort"
 	"strings"
 	"time"
@@ -496,6 +497,15 @@ func c05Body(nb int, shapes bool) func(c *mc.Ctx) {
 			shape = "key-not-first"
 		}
 		c.SetCrashClass(ifStr(shape == "", "plain", shape))
+		// a sorter goroutine of the repository that panics (known column-op finding) ends the worker
+		// process; give the goroutines of this case a moment to finish before the next case
+		// starts, so that such a crash is attributed to the case that caused it
+		baseG := runtime.NumGoroutine()
+		defer func() {
+			for i := 0; i < 300 && runtime.NumGoroutine() > baseG; i++ {
+				time.Sleep(100 * time.Microsecond)
+			}
+		}()
 		fail := func(cls, format string, a ...any) {
 			if shape != "" {
 				cls = cls + ":" + shape
